@@ -15,7 +15,7 @@
      ([dtype_of]) and the answers of is_numeric_dtype / is_bool_dtype /
      is_float_dtype / is_string_dtype on it;
    - isna / dropna ([Missing] = None or NaN);
-   - value_counts().min() ([min_count]); it raises on unhashable (list) cells;
+   - value_counts().min() ([min_count]);
    - pd.to_datetime accepts a string column iff every cell is a date string.
      Date RECOGNITION is pandas'; [DateStr] is an input classification (the
      generator emits only clear dates and clear non-dates);
@@ -49,7 +49,9 @@ Inductive cell :=
 | LList (l : list elem)
 | Missing.              (* None / NaN *)
 
-(* what infer_series_stype does: returns Optional[stype], or raises *)
+(* what infer_series_stype is observed to do: it returns Optional[stype], or raises.
+   The model never produces [Raises]: on the validated domain the code does not
+   raise, and an observed exception is a correspondence mismatch. *)
 Inductive outcome :=
 | Inferred (r : option stype)
 | Raises.
@@ -238,7 +240,6 @@ Definition infer_scalar_branch (hasnan : bool) (d : dtype) (ser : list cell) : o
     else Inferred (Some st_numerical)
   else
     if is_timestamp ser then Inferred (Some st_timestamp)
-    else if existsb is_list ser then Raises            (* value_counts on an unhashable cell *)
     else if above_thresh (min_count ser) || is_bool_dtype d then Inferred (Some st_categorical)
     else if negb (is_string_dtype d) then
       (if above_thresh (min_count ser) then Inferred (Some st_multicategorical)
